@@ -65,12 +65,12 @@ PROPS = {
         level="exploration",
         quick=dict(runs=20000),
         thorough=dict(runs=600000),
-        rule=("each run = one store of 1-3 metrics with 0-6 data each, limits {none, =size, <size, >size}, expiry marks, and explicit timestamps "
+        rule=("each run = one store of 1-3 metrics (integer, float, text or histogram data) with 0-6 data each, limits {none, =size, <size, >size}, expiry marks (one marked datum in three marked twice with different delays: the latest counts), and explicit timestamps (one datum in three updated twice with the same value: the later instant counts) "
               "placed relative to the GC instant T: exactly at / 1ns below / 1ns above the expiry boundary, far past, in the future of T, tied; "
               "GC runs either as a direct Gc() call by a task at T or through the real StartGcLoop ticker while the controller advances the fake "
               "clock (every tick's pass is judged at its own instant). Oracle: relational model of the statement (limit phase with ties free, "
-              "then expiry, nothing else changes). Non-trivial: something was removed or a metric was over its limit; distinct = distinct store descriptions."),
-        assumptions=["every datum has been updated at least once before GC (timestamps are explicit)", "integer counters only: GC does not look at values"],
+              "then expiry, nothing else changes) over the update instants and expiries the harness intended, not those read back from the data. Non-trivial: something was removed or a metric was over its limit; distinct = distinct store descriptions."),
+        assumptions=["every datum has been updated at least once before GC (timestamps are explicit)", "GC does not look at values: every value type is used, with values that are never compared except for being unchanged"],
         expect_probes=["over_limit", "age_exactly_expiry", "timestamp_in_future_of_T", "gc_tick"],
         real=["metrics.Store (Add, Range, Gc, StartGcLoop ticker goroutine)", "metrics.Metric (RemoveOldestDatum, RemoveDatum, ExpireDatum)", "Go time/ticker (fake clock)"],
         stub=[],
@@ -79,9 +79,9 @@ PROPS = {
         level="exploration",
         quick=dict(runs=5000),
         thorough=dict(runs=150000),
-        rule=("each run = 1-3 glob patterns drawn from 8 overlapping ones (absolute and relative, '*', '?', directory wildcards, a path with '..'), "
+        rule=("each run = 1-3 glob patterns drawn from 10 overlapping ones (absolute and relative, '*', '?', directory wildcards, a path with '..', a literal with a doubled separator, a glob through '.'), "
               "an optional ignore regexp, a small real directory tree and a history of 1-8 actions {create, delete, rename to a free name, replace, "
-              "delete + stream poll + re-create between two pattern polls, replace + delete placed 0-399 single statements into the stream poll that notices the replacement + re-create, mkdir/rmdir, rename directory, a directory whose name matches a file pattern, "
+              "delete (with or without an unterminated fragment pending) + stream poll + re-create between two pattern polls — the re-creation and the next pattern poll arriving either afterwards or 0-29 scheduler steps into the old stream's winding down, replace + delete placed 0-399 single statements into the stream poll that notices the replacement + re-create, mkdir/rmdir, rename directory, a directory whose name matches a file pattern, "
               "poll}, each followed by an observation (one run in four "
               "the patterns also match an untailable entry, a symlink to a device node); then a unique "
               "probe line is appended to every file of the tree. All interleavings of the pattern pollers (one per pattern, racing to TailPath the same "
@@ -127,7 +127,7 @@ PROPS = {
         level="exploration",
         quick=dict(runs=4000),
         thorough=dict(runs=120000),
-        rule=("each run = N in 4..31 numbered lines streamed by a feeder task while a loader task performs 1-4 reloads of a witness program "
+        rule=("each run = (runtime options drawn per run: metric source positions omitted, runtime errors logged) N in 4..31 numbered lines streamed by a feeder task while a loader task performs 1-4 reloads of a witness program "
               "(same declarations at the same place: gauge last, counter seen by n, counter byver by v; each version counts into its own byver label), "
               "each reload started after a seeded number of lines; mostly statement-level preemption with small quanta so that the reload lands "
               "while the old version is between receiving a line and finishing it. The controller samples the gauge after every scheduler step. "
@@ -142,8 +142,8 @@ PROPS = {
         level="exploration",
         quick=dict(runs=4000),
         thorough=dict(runs=120000),
-        rule=("each run = a real program directory with up to three .mtail files, a dot-file, a notes.txt, *.mtail.bak / *.mtail.txt names, a "
-              "subdirectory holding a .mtail file and optionally a directory *named* d.mtail, an eligible name with two dots (a.v2.mtail), and a history of 1-8 actions {write valid, write broken (a syntax error, or — in the half of the runs where a metric of another program occupies a name — source that compiles but is refused at registration), "
+        rule=("each run = a real program directory (whose own name contains glob characters in three runs of five, next to sibling directories such a pattern would match; runtime options drawn per run) with up to three .mtail files, a dot-file, a notes.txt, *.mtail.bak / *.mtail.txt names, a "
+              "subdirectory holding a .mtail file and optionally a directory *named* d.mtail, an eligible name with two dots (a.v2.mtail), and a history of 1-8 actions {write valid, write broken (a syntax error, or — in the half of the runs where a metric of another program occupies a name — source that compiles but is refused at registration; or the entry becomes a dangling symlink, which is listed but cannot be opened), "
               "restore, remove, put the removed file back byte-identical, rename (to eligible and ineligible names), touch, reload only}, each followed by LoadAllPrograms — one time in three "
               "while a feeder streams lines. After each reload one line is fed at quiescence: exactly the (file, version) counters of the model's "
               "running set move by one, and prog_loads/unloads/load_errors equal the events. With lines flowing, programs running before and after "
@@ -158,7 +158,7 @@ PROPS = {
         level="exploration",
         quick=dict(runs=4000),
         thorough=dict(runs=120000),
-        rule=("each run = program p loaded, lines fed, then 1-7 actions from {reload p with a version from the family identical / comment-only edit / "
+        rule=("each run = program p (scalar counter, dimensioned counter, gauge, a histogram without keys) loaded with runtime options drawn per run (no metric source positions, runtime errors logged), lines fed, then 1-7 actions from {reload p with a version from the family identical / comment-only edit / "
               "declaration moved / kind changed (first or a later declaration) / type changed / keys changed / syntax error — one time in three while lines "
               "flow; unload p (file removed) and load it again later in any of those versions; load or remove a "
               "second program q whose second declaration conflicts in kind with p's (registration refused after q already declared another metric); "
@@ -176,9 +176,9 @@ PROPS = {
         level="exploration",
         quick=dict(runs=3000),
         thorough=dict(runs=100000),
-        rule=("each run = an observed program (3 variants: scalar + dimensioned + gauge, hidden metric, runtime-error maker) loaded first and never "
-              "touched, 4-33 lines, and 1-6 loader operations on up to three other program files drawn from 13 kinds (same name+kind, same name with "
-              "float type, same name with other keys, same-name gauge, kind conflict, broken, runtime-error maker, hidden same name, hidden variable of another kind, two programs that expire the label tuples the observed program also holds under the same metric name, a counter/gauge pair on a name the observed program does not use) — add, replace, "
+        rule=("each run = an observed program (4 variants: scalar + dimensioned + gauge, hidden metric, runtime-error maker, one relying on the default of timestamp(); one run in three 1-2 other programs are already in the directory at the start and load before it) never "
+              "touched, 4-33 lines, and 1-6 loader operations on up to three other program files drawn from 16 kinds (same name+kind, same name with "
+              "float type, same name with other keys, same-name gauge, kind conflict, broken, runtime-error maker, hidden same name, hidden variable of another kind, two programs that expire the label tuples the observed program also holds under the same metric name, a counter/gauge pair on a name the observed program does not use, one that sets its own time register on every line, one with a metric that cannot be exported) — add, replace, "
               "remove, re-add — half of them while the lines flow; one time in three two simulated minutes pass and Store.Gc runs (it must not fail). Oracle: the observed program's series in the real Prometheus exposition equal "
               "those of a solo reference run on the same lines (second runtime in the same bubble); the scrape as a whole keeps working; valid "
               "non-conflicting programs are never refused; no datum is shared between programs. Non-trivial: a load overlapped line processing."),
@@ -210,7 +210,7 @@ PROPS = {
         rule=("each run = the whole server (not one-shot) with simulated pollers: a witness program loaded for the whole run, programs errp/divp whose "
               "runtime errors are a harness-computable function of the line, 1-2 logs, and 2-9 actions from {append 1-4 lines, rotate, truncate, "
               "delete/recreate a log; several connections arriving together on a tailed stream socket (one run in three has one); write a valid / broken / "
-              "kind-conflicting / self-conflicting (one name, two kinds) version of a program, remove it, reload} each followed by an "
+              "kind-conflicting / self-conflicting (one name, two kinds) version of a program, replace it by a dangling symlink (listed, cannot be opened: a load error), remove it, reload} each followed by an "
               "observation; one append in four leaves an unterminated fragment that the end of that file generation (rotate, truncate, delete, shutdown) "
               "must deliver and count as a line of its own. After every action and after shutdown: lines_total, log_lines_total[f], prog_runtime_errors_total[p], prog_loads/unloads/load_errors_total[p] "
               "and log_count (read as deltas) must equal the harness's own event counts and the witness program's counters. Non-trivial: lines flowed "
@@ -227,9 +227,9 @@ PROPS = {
         thorough=dict(runs=300000),
         rule=("each run = one stream source reached through tailer.New: two runs in three a socket (unix://, tcp://, unixgram:// or udp://, one-shot on "
               "or off) on the in-memory transport, one in three a named pipe or stdin backed by one — a real kernel FIFO behind the read gate — with one "
-              "writer (arbitrary chunking, optional unterminated tail) or two overlapping writers (whole lines per write), stream ticks interleaved by "
+              "writer (arbitrary chunking, optional unterminated tail) or two overlapping writers (whole lines per write); one pipe run in three the pipe matches two patterns and appears after tailing began (exactly one stream may be started), one in three an idle second pipe is tailed on the same waker; stream ticks interleaved by "
               "the seed and an optional cancellation at a seeded step. Sockets: 1-4 writer tasks each writing 0-6 uniquely tagged lines (some long, some CRLF) in seeded chunks (stream sockets: optional "
-              "unterminated tail, then close; datagram sockets: 1-3 whole lines per datagram), short reads drawn per read, and in one run of three a "
+              "unterminated tail, then close; datagram sockets: 1-3 whole lines per datagram, an empty datagram now and then outside one-shot mode, one bulk unixgram run starting with a single 65-125 KiB datagram), short reads drawn per read, and in one run of three a "
               "cancellation of the stream at a seeded scheduler step while writers are active (including just after a connection was accepted and "
               "with bytes buffered but unread). Oracle: per connection the delivered lines equal the written ones in order, the tail once at close, "
               "no line mixes two connections; with cancellation a prefix (the last delivery may be the part of a line already read); the output "
@@ -250,7 +250,7 @@ PROPS = {
               "comes after an update; an override location from {none, UTC, +05:00, -09:30}; the current-year option on/off; and 3-16 lines with values "
               "valid, invalid, generated for another layout, or repeated from earlier lines, with the simulated clock advanced between lines (ms, days, "
               "to one second before/at/after New Year). After every line the gauge holding timestamp(), the timestamp of every datum updated later on "
-              "the line (a counter, and a text metric and a float gauge that are re-assigned the value they already hold) and the runtime-error count are compared with a model built on time.Parse/ParseInLocation and the simulated clock. "
+              "the line (a counter, a histogram, and a text metric and a float gauge that are re-assigned the value they already hold) and the runtime-error count are compared with a model built on time.Parse/ParseInLocation and the simulated clock. "
               "Non-trivial: a value was repeated or the clock jumped; distinct = distinct (configuration, line history)."),
         assumptions=["datum timestamps are compared only for instants representable as int64 nanoseconds since 1970 (years 1678-2261): a year-less layout without the current-year option yields year 0, which a datum cannot hold (timestamp() itself is still compared)",
                      "the whole scenario runs on the controller goroutine (a VM is single-threaded); the schedule dimension is empty and stated as such"],
@@ -262,10 +262,10 @@ PROPS = {
         level="exploration",
         quick=dict(runs=20000),
         thorough=dict(runs=600000),
-        rule=("each run = a program assembled from 3-8 of 17 state-stressing rules (strptime under two layouts reading the same strings differently, "
+        rule=("each run = a program assembled from 3-8 of 18 state-stressing rules (strptime under two layouts reading the same strings differently, "
               "syslog layout, constant strptime, strptime followed by a failing conversion or by stop on the same line, settime, timestamp(), strtol and division that fail on some inputs, stop, a rule after stop, del, del after, "
-              "else/otherwise, capture reuse into a text metric; one program in three ends in an else branch whose last statement — the program's last instruction — is stop or a failing del-after), a history of 0-12 lines (one in three an exact repeat of an earlier line) with clock "
-              "advances and jumps in between, and a final line L. Twin oracle: the VM that processed the history and a freshly compiled copy loaded with the "
+              "else/otherwise, capture reuse into a text metric, a line whose only metric access is one label set; one program in three ends in an else branch whose last statement — the program's last instruction — is stop or a failing del-after), a history of 0-12 lines (one in three an exact repeat of an earlier line) with clock "
+              "advances, jumps and store GC passes in between (one run in six instead: a timestamped line, 64-200 lines with other timestamps, and that first line again as L; one run in twelve ends in a scripted tail: a label set is created, marked for expiry, touched, collected by GC, and touched or marked again), the log-runtime-errors option drawn per run, and a final line L. Twin oracle: the VM that processed the history and a freshly compiled copy loaded with the "
               "same metric contents both process L at the same simulated instant; all metrics (tuples, values, timestamps, expiry), the runtime-error "
               "count and the error text must agree. Non-trivial: the history contains a strptime, a runtime error or a stop."),
         assumptions=["programs rejected by the compiler are discarded", "the scenario runs on the controller goroutine (single VM, no schedule dimension)"],
